@@ -156,6 +156,9 @@ def run(R):
               "'interior_bright' targets, captures of in-bound intensities 2^6..2^17 units above the lower bounds (all or some of the sources bright); "
               "plain, relative and "
               "L1-normalised membership via in_hull_from_A and ReceptorEstimator.in_hull / in_gamut, batched and as a single 1-D target (any one of the targets). "
+              "Chromatic (normalized=True) membership also for absolute capture (relative=False; captures A x of the same in-bound intensities, every unbounded and "
+              "a random half of the bounded systems) and on unbounded systems (dim and 'interior_bright' captures, non-negative adaptation): there the implementation "
+              "may decline (ValueError, counted) - if it answers, every capture of intensities strictly inside the bounds must be accepted. "
               "Linearly dependent sources (every 5th system and a random eighth of the others): two sources of the same type with different power "
               "(proportional columns of A) or a source that is a mixture of two others -- every 10th system is such a rig with finite bounds and fewer sources "
               "than receptors; the intensities reproducing a target are then not unique, the certificates (box coordinates, corner weights, separators) are unchanged. "
@@ -356,6 +359,39 @@ def run(R):
                 if stn == "ok":
                     stn, outn = call(en.in_hull, as_given(rng, Bn.copy(), R, "B", kinds=("same", "fortran", "strided", "list")), normalized=True)
                 npaths = sorted({e["path"] for e in drain() if e["event"] == "in_hull"})
+        # chromatic membership, further configurations (own random stream, the draws above are unchanged):
+        #  - unbounded sources: the chromatic gamut is still defined (the chromaticities of all captures of in-bound intensities). An
+        #    implementation may decline the question (ValueError); if it answers, every capture of intensities strictly inside the
+        #    bounds - dim or bright - must be accepted
+        #  - absolute capture (relative=False: adaptation and baseline play no role, the captures are A x), bounded or not
+        rngc = R.rng(6, int(k[1:]))
+        chroma2 = []
+        Apf_ = np.array([[float(v) for v in row] for row in Ap]); p0f_ = np.array([float(v) for v in predictF(lbF)])
+        tin = [t_ for t_ in targets if t_["expect"] and "x" in t_]
+        cq = []
+        if (not finite) and np.all(Apf_ >= 0) and np.all(p0f_ >= 0):
+            cq.append(("relative", np.array([t_["b"] for t_ in tin if np.sum(np.abs(t_["b"])) > 0]), [t_["x"] for t_ in tin if np.sum(np.abs(t_["b"])) > 0]))
+        if np.all(S["A"] >= 0) and ((not finite) or rngc.integers(2) == 0):
+            AF = [[F(v) for v in row] for row in S["A"]]
+            rows_, xs_ = [], []
+            for t_ in tin:
+                ba = [sum(a * xv for a, xv in zip(row, t_["x"])) for row in AF]
+                bf_, be_ = exact_float_vec(ba)
+                if be_ == ba and sum(ba) > 0:
+                    rows_.append(bf_); xs_.append(t_["x"])
+            cq.append(("absolute", np.array(rows_), xs_))
+        for mode, Bc, xs_ in cq:
+            if not len(Bc):
+                continue
+            Bc = np.vstack([Bc, Bc * 2.0]) if finite else Bc      # bounded: chromaticity is that of any positive multiple
+            stc, ec = call(mk_est)
+            outc = ec
+            methc = str(rngc.choice(["in_hull", "in_gamut"]))
+            if stc == "ok":
+                kw_ = dict(normalized=True) if mode == "relative" else dict(normalized=True, relative=False)
+                drain()
+                stc, outc = call(getattr(ec, methc), as_given(rngc, Bc.copy(), R, "B", kinds=("same", "fortran", "strided", "list")), **kw_)
+            chroma2.append(dict(mode=mode, method=methc, status=stc, out=outc, B=Bc, x=xs_, paths=sorted({e["path"] for e in drain() if e["event"] == "in_hull"})))
         # history: a program keeps using what it holds. The same estimator (or, with the functional interface, the same
         # arrays) answers a first gamut query of any kind, is optionally re-adapted / re-bounded through a registration call,
         # and is asked again. (1) a fresh estimator given the same registered values must give the same answers;
@@ -440,9 +476,9 @@ def run(R):
                 R.driver.ask(rid, "sep", ms(P), vs(ct[1]), rs(ct[2]), vs(t_["be"]))
         jobs.append((k, S, targets, via, st, out, paths, fulldim, finite, ext, stn, outn, Bn, hist, (single, isingle), npaths,
                      {n_: ("list" if isinstance(v, list) else ("None" if v is None else "%s%s" % (v.dtype, "" if v.flags["C_CONTIGUOUS"] else (" F-order" if v.flags["F_CONTIGUOUS"] else " strided"))))
-                      for n_, v in G.items()}))
+                      for n_, v in G.items()}, chroma2))
     R.driver.run()
-    for k, S, targets, via, st, out, paths, fulldim, finite, ext, stn, outn, Bn, hist, (single, isingle), npaths, given in jobs:
+    for k, S, targets, via, st, out, paths, fulldim, finite, ext, stn, outn, Bn, hist, (single, isingle), npaths, given, chroma2 in jobs:
         c = dict(k=k, via=via, nf=S["nf"], ns=S["ns"], A=S["A"], K=S["K"], K_kind=S["K_kind"], baseline=S["baseline"], baseline_kind=S["baseline_kind"],
                  lb=S["lb"], ub=S["ub"], given_as=given, full_dimensional=bool(fulldim), paths=paths,
                  targets=[dict(kind=t_["kind"], b=t_["b"], expect=t_["expect"]) for t_ in targets])
@@ -533,6 +569,25 @@ def run(R):
             elif not np.all(outn):
                 R.failB(dict(c, targets_normalized=Bn, impl=outn, normalized_paths=npaths), "captures of in-bound intensities (or positive multiples of them) were reported outside the chromatic gamut",
                         "C03:normalized:false-negative:" + "+".join(npaths))
+        for q in chroma2:
+            cfgc = "%s:%s" % ("bounded" if finite else "unbounded", q["mode"])
+            R.count("normalized:%s" % cfgc)
+            for p_ in q["paths"]:
+                R.count("normalized-path:%s:%s" % (cfgc, p_))
+            qinfo = dict(chromatic_query="%s(normalized=True%s)" % (q["method"], "" if q["mode"] == "relative" else ", relative=False"), targets_normalized=q["B"])
+            if q["status"] == "value_error" and not finite:
+                # the implementation declines to define a chromatic gamut without upper bounds: loud, not a wrong answer
+                R.count("normalized:%s:declined(ValueError)" % cfgc)
+            elif q["status"] != "ok":
+                R.failB(dict(c, impl_error=q["out"], **qinfo), "chromatic (normalized) membership, %s capture, raised %s: %s" % (q["mode"], q["status"], q["out"]),
+                        "C03:normalized:%s:nf=%d:raises:%s" % (cfgc, S["nf"], q["status"]))
+            else:
+                ans = np.atleast_1d(np.asarray(q["out"])).astype(bool)
+                R.count("normalized:%s:answered" % cfgc)
+                if len(ans) != len(q["B"]) or not np.all(ans):
+                    R.failB(dict(c, impl=ans, intensities=[[rs(v) for v in x_] for x_ in q["x"]], normalized_paths=q["paths"], **qinfo),
+                            "captures of intensities strictly inside the bounds (%s capture, %s sources) were reported outside the chromatic gamut" % (q["mode"], "bounded" if finite else "unbounded"),
+                            "C03:normalized:false-negative:%s:%s" % (cfgc, "+".join(q["paths"])))
         if not finite:
             R.count("unbounded:K=%s:%s" % (S["K_kind"], "certified in+out" if (has_in and has_out) else ("certified in" if has_in else "none")))
         R.case(c, (k,) if (fulldim and has_in and has_out) else None, sample=(fulldim and finite and has_out))
